@@ -339,7 +339,7 @@ func TestVerifC40Random(t *testing.T) {
 	divs := []int{1, 2, 3, 4, 5, 6, 8, 10, 12}
 	pick := func(xs []int) int { return xs[rng.Intn(len(xs))] }
 	randCfg := func() c40Cfg {
-		c := c40Cfg{MaxPct: pick([]int{0, 20, 20, 25, 25, 34, 40, 50, 50, 67, 75, 100, 100}), Base: pick([]int{0, 1, 2, 3}), MaxT: pick([]int{0, 2, 4, 9})}
+		c := c40Cfg{MaxPct: pick([]int{0, 20, 20, 25, 25, 34, 40, 50, 50, 67, 75, 100, 100}), Base: pick([]int{0, 1, 2, 3, 3, 4}), MaxT: pick([]int{0, 1, 2, 2, 4, 9})}
 		k := rng.Intn(8)
 		if k != 0 && k != 1 && k != 2 {
 			c.Sr = true
